@@ -78,6 +78,8 @@ type balloons struct {
 	ifreeCpus cpuset.CPUSet          // initially free CPUs before assigning any containers
 	cpuTree   *cpuTreeNode           // system CPU topology
 
+	cfgoptions *BalloonsOptions // bpoptions as given, without defaults and built-in balloon types filled in
+
 	reservedBalloonDef *BalloonDef // reserved balloon definition, pointer to bpoptions.BalloonDefs[x]
 	defaultBalloonDef  *BalloonDef // default balloon definition, pointer to bpoptions.BalloonDefs[y]
 	balloons           []*Balloon  // balloon instances: reserved, default and user-defined
@@ -1238,8 +1240,10 @@ func (p *balloons) Reconfigure(newCfg interface{}) error {
 		log.Debug("effective configuration:\n%s\n", utils.DumpJSON(p.bpoptions))
 	}()
 	newBalloonsOptions := balloonsOptions.DeepCopy()
-	if !changesBalloons(p.bpoptions, newBalloonsOptions) {
-		if !changesCpuClasses(p.bpoptions, newBalloonsOptions) {
+	// Compare with the configuration as it was given: p.bpoptions
+	// has defaults and built-in balloon types filled in.
+	if !changesBalloons(p.cfgoptions, newBalloonsOptions) {
+		if !changesCpuClasses(p.cfgoptions, newBalloonsOptions) {
 			log.Info("no configuration changes")
 		} else {
 			log.Info("configuration changes only on CPU classes")
@@ -1248,9 +1252,15 @@ func (p *balloons) Reconfigure(newCfg interface{}) error {
 			// must be kept in use, because each Balloon
 			// instance holds a direct reference to its
 			// BalloonDef.
-			for i := range p.bpoptions.BalloonDefs {
-				p.bpoptions.BalloonDefs[i].CpuClass = newBalloonsOptions.BalloonDefs[i].CpuClass
+			p.bpoptions.IdleCpuClass = newBalloonsOptions.IdleCpuClass
+			for _, newDef := range newBalloonsOptions.BalloonDefs {
+				for _, blnDef := range p.bpoptions.BalloonDefs {
+					if blnDef.Name == newDef.Name {
+						blnDef.CpuClass = newDef.CpuClass
+					}
+				}
 			}
+			p.cfgoptions = newBalloonsOptions
 			// (Re)configures all CPUs in balloons.
 			if err := p.resetCpuClass(); err != nil {
 				log.Warnf("failed to reset CPU class: %v", err)
@@ -1347,6 +1357,7 @@ func (p *balloons) validateConfig(bpoptions *BalloonsOptions) error {
 
 // setConfig takes new balloon configuration into use.
 func (p *balloons) setConfig(bpoptions *BalloonsOptions) error {
+	cfgoptions := bpoptions.DeepCopy()
 	bpoptions = bpoptions.DeepCopy()
 
 	// Handle AvailableResources.cpus, if defined.
@@ -1389,6 +1400,7 @@ func (p *balloons) setConfig(bpoptions *BalloonsOptions) error {
 	p.balloons = []*Balloon{}
 	p.freeCpus = p.allowed.Clone()
 	p.bpoptions = bpoptions
+	p.cfgoptions = cfgoptions
 
 	// Create balloon instances in the order of AllocatorPriority.
 	for allocPrio := cpuallocator.CPUPriority(0); allocPrio <= cpuallocator.NumCPUPriorities; allocPrio++ {
